@@ -80,6 +80,20 @@ CLAIMS["C19"] = dict(
     technique="TLA+ transcription + independent canonical-form predicate, TLC exhaustive enumeration replayed on the implementation, TLC trace validation",
     design="DESIGN.md §3.5, §4 C19")
 
+CLAIMS["C20"] = dict(
+    category="model_checking",
+    text=("Xform.tla is an exact rational model of MatTransform algebra and 3x3 inversion. TLC enumerates a lattice on which float "
+          "arithmetic is (nearly) exact - 24 axis rotations x Pythagorean rotations (3/5,4/5; 5/13,12/13), dyadic scales, integer "
+          "translations, all invertible matrices over {-1,0,1}, grid point sets - checks every law exactly on the model and exports "
+          "the cases; the harness evaluates the real functions (InverseTransform, ComposeTransforms, ApplyTransform, ToMatrix, "
+          "Matrix4::Inverse, Matrix3::Invert/Determinant, RotMatToVec/RotVecToMat, CalcAverage*/CalcMedian*, BoundingSphere) and "
+          "TLC validates results that leave the float tolerance plus a sample. Seeded random rotation vectors (also next to 0, "
+          "pi/3, pi), point sets and shape-bounds edit histories in six versions are validated as integer inequalities."),
+    note=("Trusted: TLC, projection of floats to integers scaled by 1000 (tolerance 3e-3). The lattice exercises formula structure, "
+          "not floating-point conditioning; generic irrational angles are covered only by the random round-trip leg."),
+    technique="exact rational TLA+ model, TLC enumeration of a lattice replayed on the C++ functions, TLC trace validation with integer slack",
+    design="DESIGN.md §3.5, §4 C20")
+
 NOT_YET = {}
 
 
